@@ -68,14 +68,25 @@ ClearNodes(seeds) ==
     /\ D'    = [D EXCEPT !.inp = Drop(@, gone)]
     /\ taint' = taint \ gone
 
-ClearNodesD(seeds, D2) ==      \* same, when the definitions change as well
-    LET gone == WithDescs(seeds) IN
+\* Deviation switch for a design-level control (MC_MxEval_stale71.cfg overrides it with
+\* StaleOn): TraceManager.clear_attr_referrers as it was before repair #71 -- the elements
+\* cleared as DEPENDENTS of a reader of the edited reference stayed in the reference graph.
+StaleRefEdges == FALSE
+StaleOn == TRUE
+
+\* seeds: cleared through clear_with_descs / clear_obj;  attr: the readers of an edited
+\* reference (ReferenceGraph.remove_with_descs), cleared through clear_attr_referrers
+ClearNodesAttr(seeds, attr, D2) ==
+    LET gone == WithDescs(seeds \cup attr)
+        forgotten == IF StaleRefEdges THEN WithDescs(seeds) \cup attr ELSE gone IN
     /\ data' = Restrict(data, DOMAIN data \ gone)
     /\ tgn'  = tgn \ gone
     /\ tge'  = {e \in tge : e[1] \notin gone /\ e[2] \notin gone}
-    /\ rge'  = {e \in rge : e[2] \notin gone}
+    /\ rge'  = {e \in rge : e[2] \notin forgotten}
     /\ D'    = [D2 EXCEPT !.inp = Drop(@, gone)]
     /\ taint' = taint \ gone
+
+ClearNodesD(seeds, D2) == ClearNodesAttr(seeds, {}, D2)   \* same as ClearNodes, when the definitions change as well
 
 NodesOfCells(p, c) == {n \in tgn : n[1] = p /\ n[2] = <<>> /\ n[3] = c}
 
@@ -296,9 +307,8 @@ SetRef(op) ==
            \* formulas reached through this space by attribute
            shadowed == IF Len(op.s) > 0 /\ op.n \notin DOMAIN D.refs[op.s] /\ op.n \in DOMAIN D.grefs
                        THEN AttrReferrers(<<<<>>, op.n>>) ELSE {}
-           seeds == (IF Len(op.s) = 0 THEN AllNsSeeds ELSE NsSeeds(op.s))
-                    \cup AttrReferrers(rid) \cup shadowed IN
-       ClearNodesD(seeds, D2)
+           seeds == (IF Len(op.s) = 0 THEN AllNsSeeds ELSE NsSeeds(op.s)) IN
+       ClearNodesAttr(seeds, AttrReferrers(rid) \cup shadowed, D2)
     /\ last' = [n |-> <<>>, res |-> 0, tb |-> <<>>, fx |-> <<>>, t |-> FALSE]
     /\ UNCHANGED <<stack, refstack, rolled, mode, exc>>
 
@@ -307,9 +317,8 @@ DelRef(op) ==
     /\ LET rid == <<op.s, op.n>>
            D2 == IF Len(op.s) = 0 THEN [D EXCEPT !.grefs = Drop(@, {op.n})]
                  ELSE [D EXCEPT !.refs[op.s] = Drop(@, {op.n})]
-           seeds == (IF Len(op.s) = 0 THEN AllNsSeeds ELSE NsSeeds(op.s))
-                    \cup AttrReferrers(rid) IN
-       ClearNodesD(seeds, D2)
+           seeds == (IF Len(op.s) = 0 THEN AllNsSeeds ELSE NsSeeds(op.s)) IN
+       ClearNodesAttr(seeds, AttrReferrers(rid), D2)
     /\ last' = [n |-> <<>>, res |-> 0, tb |-> <<>>, fx |-> <<>>, t |-> FALSE]
     /\ UNCHANGED <<stack, refstack, rolled, mode, exc>>
 
@@ -453,6 +462,13 @@ ExactDiscard ==
               gone == {x \in DOMAIN data : x # n /\ ~IsInput(D, x) /\ n \in DepsStar(D, x)} IN
           DOMAIN data' \ taint = (IF op.op = "set_value" THEN (DOMAIN data \ gone) \cup {n}
                                   ELSE DOMAIN data \ (gone \cup {n})) \ taint]_vars
+
+\* C06, inputs persist: an edit of a reference, or the assignment of another element,
+\* never takes an assigned value away (D.inp is the model's own record of the assigned
+\* values, so this is stated on the transition, not against the oracle)
+InputsKept ==
+    [][(Len(hist') > Len(hist) /\ Last(hist').op \in {"set_ref", "del_ref", "set_value"})
+          => DOMAIN D.inp \subseteq DOMAIN D'.inp]_vars
 
 -----------------------------------------------------------------------------
 (* spec -> code: print every maximal history once (BFS) for replay          *)
